@@ -10,7 +10,15 @@ for f in sorted(glob.glob("/verif/findings/C1[456]-*/*.json")):
     m = importlib.import_module("props." + d["property"].lower())
     r = m.run(d["scenario"])
     same = [v for v in r["violations"] if v["rule"] == d["violation"]["rule"]]
-    assert same, f
+    if not same:
+        # fixed in /repo since: keep the recorded violation, note the tree on which it stopped
+        d["no_longer_reproduces_on"] = code
+        d["expected_digest"] = r["stats"]["digest"]; d["code"] = code
+        d["log_head"] = jsonable(r.get("log_head", [])[:120])
+        json.dump(d, open(f, "w"), indent=1, sort_keys=True)
+        print("fixed-on-head", d["violation"]["key"], os.path.relpath(f, "/verif/findings"))
+        continue
+    d.pop("no_longer_reproduces_on", None)
     d["violation"] = same[0]; d["all_violations"] = r["violations"]
     d["expected_digest"] = r["stats"]["digest"]; d["code"] = code
     d["log_head"] = jsonable(r.get("log_head", [])[:120])
